@@ -27,10 +27,11 @@ type RefTable struct {
 
 // RefFunc is one function of the reference tree.
 type RefFunc struct {
-	Pkg  string `json:"pkg"`
-	Recv string `json:"recv,omitempty"`
-	Name string `json:"name"`
-	Sig  string `json:"sig"`
+	Pkg     string   `json:"pkg"`
+	Recv    string   `json:"recv,omitempty"`
+	Name    string   `json:"name"`
+	Sig     string   `json:"sig"`
+	Callers []string `json:"callers,omitempty"` // keys of the module functions that call it (static and interface-expanded)
 }
 
 // RefField is one struct field of the reference tree.
@@ -114,8 +115,25 @@ func sigString(fn *types.Func) string {
 // BuildRefTable lists the functions and struct fields of the loaded tree.
 func (p *Program) BuildRefTable() *RefTable {
 	t := &RefTable{}
+	callers := map[*types.Func]map[string]bool{}
 	for _, fd := range p.Funcs {
-		t.Funcs = append(t.Funcs, RefFunc{Pkg: fd.Pkg.PkgPath, Recv: RecvTypeName(fd.Obj.Type().(*types.Signature)), Name: fd.Obj.Name(), Sig: sigString(fd.Obj)})
+		for _, c := range p.CalleesOf(fd) {
+			if c == fd.Obj {
+				continue
+			}
+			if callers[c] == nil {
+				callers[c] = map[string]bool{}
+			}
+			callers[c][fd.Key()] = true
+		}
+	}
+	for _, fd := range p.Funcs {
+		var cs []string
+		for k := range callers[fd.Obj] {
+			cs = append(cs, k)
+		}
+		sort.Strings(cs)
+		t.Funcs = append(t.Funcs, RefFunc{Pkg: fd.Pkg.PkgPath, Recv: RecvTypeName(fd.Obj.Type().(*types.Signature)), Name: fd.Obj.Name(), Sig: sigString(fd.Obj), Callers: cs})
 	}
 	q := func(pk *types.Package) string { return pk.Path() }
 	for _, nt := range p.Named {
@@ -214,6 +232,24 @@ func (p *Program) resolveRenames() {
 			renamedFuncs[cands[0].Obj] = m.Name
 			p.renames = append(p.renames, FuncKeyRaw(m.Pkg, m.Recv, m.Name)+" -> "+cands[0].Obj.Name())
 		}
+	}
+	// a function that is gone without a successor, and had exactly one caller on the reference tree which is still
+	// there, is taken to have been inlined into that caller: rules anchored in it look at the caller's body
+	p.inlined = map[string]string{}
+	for _, m := range missing {
+		taken := false
+		for _, n := range renamedFuncs {
+			_ = n
+		}
+		for obj, old := range renamedFuncs {
+			if old == m.Name && obj.Pkg() != nil && obj.Pkg().Path() == m.Pkg && RecvTypeName(obj.Type().(*types.Signature)) == m.Recv {
+				taken = true
+			}
+		}
+		if taken || len(m.Callers) != 1 {
+			continue
+		}
+		p.inlined[m.Pkg+"|"+m.Recv+"|"+m.Name] = m.Callers[0]
 	}
 	// the key index follows the reference names
 	if len(p.renames) > 0 {
